@@ -59,7 +59,7 @@ PROPS = {
         stages=[
             ('allocsim', 'D', 900, 150, 6000, 2400, {}),
             # capacity faults: the same op table on the static-allocation build with operands at and beyond the precision
-            ('allocsim', 'A', 1500, 60, 60000, 600, {}),
+            ('allocsim', 'A', 3000, 90, 60000, 600, {}),
             # sanitizers as monitors inside the other engines (same seeds as their own checks)
             ('codecsim', 'A', 6000, 60, 200000, 600, {}),
             ('protosim', 'A', 4000, 60, 40000, 600, {}),
